@@ -101,8 +101,10 @@ pub fn config() -> ConfigSpec {
     sub.uses = vec!["two".into()];
     sub.ignores = vec!["three/sub/g3.txt".into()];
     let deep = TargetSpec::new("one/deep");
+    // `three` encloses `three/sub`: a path that `three/sub` ignores still belongs to `three`
+    let three = TargetSpec::new("three");
     ConfigSpec {
-        targets: vec![one, two, sub, deep],
+        targets: vec![one, two, sub, deep, three],
         ..Default::default()
     }
 }
@@ -489,8 +491,19 @@ impl Hist {
                 let n = if k % 2 == 0 { 101 + pick(*k, 49) } else { 201 + pick(*k, 49) };
                 self.counter += 1;
                 let batch = self.counter;
+                // every third batch has names made of 2- and 3-byte characters, so that a listing of
+                // them is several KiB of multi-byte text (whatever buffer it is read through, some
+                // character straddles a boundary)
+                let dense = k % 3 == 0;
                 for i in 0..n {
-                    let p = format!("two/many-{}/c{:03}.txt", batch, i);
+                    let p = if dense {
+                        format!("two/много-{}/файл点点é-№{:03}-данные.txt", batch, i)
+                    } else {
+                        format!("two/many-{}/c{:03}.txt", batch, i)
+                    };
+                    if dense {
+                        self.odd_name = true;
+                    }
                     let c = format!("many {} {}\n", batch, i).into_bytes();
                     self.env.write_file(&p, &c);
                     self.work.insert(p, c);
